@@ -33,6 +33,8 @@ echo "   demo without patch: $without"
 # 2) our checks against it
 cd /repo && git diff --quiet || { echo "/repo dirty"; exit 2; }
 git apply "$OUT/patch.diff" || { echo "patch does not apply to /repo"; exit 2; }
+# evidence written while /repo carries the seeded change describes the mutant: keep the real files
+EVBAK=$(mktemp -d /verif/target/evbak.XXXXXX); cp -a /verif/evidence/. "$EVBAK"/ 2>/dev/null
 RES=""
 for c in "${CHECKS[@]}"; do
   t0=$(date +%s)
@@ -43,6 +45,7 @@ for c in "${CHECKS[@]}"; do
   RES="$RES{\"check\":\"$c\",\"tier\":\"${SEED_TIER:-quick}\",\"exit\":$rc,\"seconds\":$((t1-t0)),\"line\":$(python3 -c 'import json,sys; print(json.dumps(sys.argv[1]))' "$line")},"
 done
 git checkout -- . ; git status --short | head -2
+cp -a "$EVBAK"/. /verif/evidence/ 2>/dev/null; rm -rf "$EVBAK"
 python3 - "$DEST" "$ID" "$with" "$without" "$suite_fail" "[${RES%,}]" <<'PY'
 import json,sys,os
 dest,id,w,wo,sf,res=sys.argv[1:]
